@@ -229,6 +229,7 @@ def worker_main(args):
     res = {"evaluations": 0, "keys": [], "tags": {}, "failures": [], "samples": [], "timeouts": 0, "model_lines": 0,
            "hashseed": os.environ.get("PYTHONHASHSEED", "random")}
     deadline = time.time() + args.budget
+    shrink_budget = [45.0]
     cases = []
     if args.wid == 0 and hasattr(mod, "corpus"):
         cases += [("corpus", c) for c in mod.corpus()]
@@ -265,7 +266,10 @@ def worker_main(args):
         for f in r.get("failures", []):
             f = dict(f)
             if len(res["failures"]) < 50:
-                small = shrink_case(mod, case, M, limit, sig(f)) if f.get("kind") != "harness-error" else case
+                do_shrink = f.get("kind") != "harness-error" and not f.get("finding") and shrink_budget[0] > 0
+                t_s = time.time()
+                small = shrink_case(mod, case, M, limit, sig(f)) if do_shrink else case
+                shrink_budget[0] -= time.time() - t_s
                 f["case"] = small
                 f["origin"] = origin
                 f["hashseed"] = res["hashseed"]
